@@ -186,16 +186,18 @@ DRV = os.path.join(LEAN, ".lake", "build", "bin", "drv")
 # ----------------------------------------------------------------------------- Go side
 
 def build_harness(rundir, race=False):
-    """build the harness against the current /repo tree; returns (binary or None, log)"""
+    """build the harness against the current repository tree (core.REPO); returns (binary or None, log).
+    go.mod/go.sum are regenerated in the run directory on every build (replace -> REPO, sums from REPO)."""
     out = os.path.join(rundir, "vh-race" if race else "vh")
-    # go.sum is regenerated from the repository's own sums on every build
     sums = set()
     for f in (os.path.join(REPO, "go.sum"), os.path.join(REPO, "loader", "go.sum")):
         if os.path.exists(f):
             sums.update(l for l in open(f).read().split("\n") if l.strip())
-    with Lock("gosum"):
-        open(os.path.join(HARNESS, "go.sum"), "w").write("\n".join(sorted(sums)) + "\n")
-    cmd = ["go", "build", "-tags", "verif"] + (["-race"] if race else []) + ["-o", out, "."]
+    mod = open(os.path.join(HARNESS, "go.mod")).read().replace("=> /repo/loader", "=> %s/loader" % REPO).replace("=> /repo\n", "=> %s\n" % REPO)
+    modfile = os.path.join(rundir, "harness.mod")
+    open(modfile, "w").write(mod)
+    open(os.path.join(rundir, "harness.sum"), "w").write("\n".join(sorted(sums)) + "\n")
+    cmd = ["go", "build", "-modfile=" + modfile, "-tags", "verif"] + (["-race"] if race else []) + ["-o", out, "."]
     p = subprocess.run(cmd, cwd=HARNESS, env=GOENV, stdout=subprocess.PIPE, stderr=subprocess.STDOUT,
                        text=True, timeout=1200)
     if p.returncode != 0:
